@@ -7,10 +7,38 @@ HARNESS = {"src": "harness/c15.cpp", "repo_srcs": [
     "libs/core/src/endianness/reverse_mem.cpp", "libs/core/src/insert_extract_locale.cpp",
     "libs/core/src/narrow_locale.cpp", "libs/core/src/widen_locale.cpp", "libs/core/src/from_std_wstring_locale.cpp",
     "libs/core/src/to_std_wstring_locale.cpp", "libs/core/src/from_std_string_locale.cpp", "libs/core/src/to_std_string_locale.cpp",
+    "libs/core/src/narrow.cpp", "libs/core/src/widen.cpp", "libs/core/src/string_conv_locale.cpp", "libs/core/src/from_std_wstring.cpp",
+    "libs/core/src/to_std_wstring.cpp",
 ]}
 TIE = "hand-written model (FcpptModel/Model/C15/*.lean) + differential correspondence against the real templates and .cpp files"
-RULE = ""
-ASSUMPTIONS = []
+RULE = ("One op = one call sequence of the real code with one canonical result line; digest ops (bins / rtds / nws) enumerate a range on "
+        "both sides and count range-size evaluations. Exhaustive: every 8- and 16-bit integer x both std::endian values (write, read back, "
+        "read once more, swap, swap twice, convert, convert twice); every 8/16-bit value through output_to_std_(w)string + "
+        "extract_from_string; every text over {space,-,+,0,1,9,x} up to length 4 (thorough 5) for every numeric destination type; every "
+        "enumerator of the four test enums; every vector/dim of length 1..4 over {min,-1|1,0,7,10,max}; every text over {( ) , 1 - space} "
+        "up to length 5 (thorough 6) as vector input; every code point U+0000..U+10FFFF singly (narrow, widen back). Sampled from the seed: "
+        "boundary lattice + random 32/64-bit integers and float/double bit patterns; value sequences through one stream; io::read on every "
+        "input length 0..2*sizeof+1; numerals around every overflow boundary; enum word streams; mutated vector texts; random scalar strings "
+        "up to length 40 plus, for every length 1..40, strings whose encoded size is n, 2n, 3n, 4n and n+1..n+3 (all buffer growth paths); "
+        "single calls of the real codecvt facet for every window size incl. primed states (contract of the abstract converter); ill-formed "
+        "byte / wide strings (truncated, overlong, surrogates, > U+10FFFF, stray bytes, embedded NULs) where additionally the result must be "
+        "the complete conversion or a failure by the plugin's own strict UTF-8 coder (extra_checks). An op is non-trivial unless it is "
+        "`native` or answered bad-op.")
+ASSUMPTIONS = [
+    "object representation of an n-byte integer = its n base-256 digits (two's complement), least significant first on this machine "
+    "(native is a parameter of the model; the harness reports std::endian::native); float/double only as the same-width bit pattern",
+    "ostream::write appends exactly the given bytes; istream::read of n bytes fails (no value) iff fewer than n are available",
+    "libstdc++ 12 num_put (dec, no showpos, classic locale: optional '-', digits, no grouping) and num_get::_M_extract_int (optional sign, "
+    "leading zeros, accumulation with the __max/10 overflow test, '-' on unsigned types negates modulo 2^bits, short/int via long + range "
+    "check) as modelled in Model/C15/Text.lean: validated by correspondence, not proved",
+    "basic_istream sentry (skipws), peek, operator>>(char&), operator>>(string&) as modelled; whitespace of the classic locale = {9..13, 32}",
+    "std::codecvt<wchar_t,char,mbstate_t> of C.utf8 (libstdc++ do_in/do_out over glibc mbsnrtowcs/wcsnrtombs: NUL-separated chunks, 31-bit "
+    "UTF-8 with 1..6 bytes, surrogates and overlong forms rejected, incomplete tail kept in the mbstate_t, max_length 6) as modelled per "
+    "character in Model/C15/Codecvt.lean (utf8In/utf8Out): validated by direct facet calls on every run, not proved; the loop theorems hold "
+    "for ANY converter meeting the stated Contract",
+    "wchar_t is a 32-bit code point; C.utf8 is the only UTF-8 locale of the sandbox; FCPPT_NARROW_STRING is defined (fcppt::string = std::string)",
+    "enumerator = its index; names table = to_string_impl<Enum>::get",
+]
 TRUSTED = ["harness/c15.cpp and the digest/line protocol (vh.hpp, Proto.lean)", "g++ 12 + ASan/UBSan as witness for memory safety of the instantiations"]
 
 INT_TYPES = {"u8": (8, False), "i8": (8, True), "u16": (16, False), "i16": (16, True),
@@ -316,13 +344,13 @@ def batches(rng, tier):
         for e in "LB":
             for v in lattice(ty):
                 ops.append(f"bin {ty} {e} {v}")
-            for _ in range(1500 if thorough else 250):
+            for _ in range(20000 if thorough else 1500):
                 ops.append(f"bin {ty} {e} {rand_val(r, ty)}")
     yield Batch("bin-32-64-lattice-random", ops, note="boundary lattice (2^k, 2^k +- 1, min/max, byte patterns, inf/nan/denormal bit patterns) + seeded random values")
     # several values through one stream; reads from arbitrary byte strings (short input, leftovers)
     r = rng.fork("seq")
     ops = []
-    for _ in range(1200 if thorough else 200):
+    for _ in range(10000 if thorough else 1000):
         ty = r.choice(list(INT_TYPES) + list(FLT_TYPES))
         n = r.range(0, 6)
         ops.append(f"seq {ty} {r.choice('LB')} " + (",".join(str(rand_val(r, ty)) for _ in range(n)) if n else "-"))
@@ -359,12 +387,12 @@ def batches(rng, tier):
         for w in "NW":
             for v in lattice(ty):
                 ops.append(f"rtd {w} {ty} {v}")
-            for _ in range(1500 if thorough else 250):
+            for _ in range(20000 if thorough else 1500):
                 ops.append(f"rtd {w} {ty} {rand_val(r, ty)}")
     yield Batch("text-32-64-lattice-random", ops, note="decimal round trip on the boundary lattice and seeded random 32/64-bit integers, narrow and wide strings")
     # all short texts over a small alphabet: what extract_from_string accepts and rejects
     ops = []
-    small = all_strings(" -+019x", 4 if thorough else 3)
+    small = all_strings(" -+019x", 5 if thorough else 4)
     for ty in NUM_DESTS:
         for t_ in small:
             ops.append(f"efs N {ty} {hx(t_)}")
@@ -372,10 +400,10 @@ def batches(rng, tier):
         for t_ in all_strings(" a\n\x80", 3):
             ops.append(f"efs N {ty} {hx(t_)}")
     yield Batch("extract-short-texts", ops, exhaustive=True,
-                note="extract_from_string on every text over {space,-,+,0,1,9,x} up to length 3 (thorough: 4) for every numeric destination, and over {space,a,newline,0x80} for the character types")
+                note="extract_from_string on every text over {space,-,+,0,1,9,x} up to length 4 (thorough: 5) for every numeric destination, and over {space,a,newline,0x80} for the character types")
     ops = []
     for ty in NUM_DESTS:
-        for t_ in num_texts(r, ty, 1200 if thorough else 200):
+        for t_ in num_texts(r, ty, 12000 if thorough else 1000):
             ops.append(f"efs {r.choice('NW')} {ty} {hx(t_)}")
     yield Batch("extract-malformed", ops, note="overflow boundaries of every destination type (max, max+1, -max-1, 2^64 ...), leading zeros, signs, whitespace before / garbage behind")
     # ---------------------------------------------------------------- enums
@@ -391,7 +419,7 @@ def batches(rng, tier):
             ops.append(f"efrom {k} {hx(c)}")
     yield Batch("enum-all-enumerators", ops, exhaustive=True, note="to_string/from_string/stream output/input for every enumerator of the four test enums (one with a duplicated name); from_string on near misses")
     ops = []
-    for _ in range(1500 if thorough else 300):
+    for _ in range(15000 if thorough else 1500):
         k = r.choice(list(ENUMS))
         names = ENUMS[k]
         parts = []
@@ -416,13 +444,13 @@ def batches(rng, tier):
                 ops.append(f"vec {ty} {n} " + ",".join(map(str, vs)))
     yield Batch("vector-small-exhaustive", ops, exhaustive=True, note="output then input of every vector/dim of length 1..4 over {min,-1|1,0,7,10,max} for int, long, unsigned short, unsigned")
     ops = []
-    short = all_strings("(),1- ", 5 if thorough else 4)
+    short = all_strings("(),1- ", 6 if thorough else 5)
     for n in (1, 2):
         for t_ in short:
             ops.append(f"vin i32 {n} {hx(t_)}")
-    yield Batch("vector-input-short-texts", ops, exhaustive=True, note="stream >> vector<int,1|2> on every text over {( ) , 1 - space} up to length 4 (thorough: 5)")
+    yield Batch("vector-input-short-texts", ops, exhaustive=True, note="stream >> vector<int,1|2> on every text over {( ) , 1 - space} up to length 5 (thorough: 6)")
     ops = []
-    for _ in range(3000 if thorough else 500):
+    for _ in range(30000 if thorough else 3000):
         ty = r.choice(VEC_TYPES)
         n = r.range(1, 4)
         vs = [rand_val(r, ty) for _ in range(n)]
@@ -448,24 +476,18 @@ def batches(rng, tier):
 
     # ---------------------------------------------------------------- UTF-8: narrow / widen in C.utf8
     yield Batch("utf8-facet", ["facet"], exhaustive=True, note="max_length() = 6 and always_noconv() = false, as the model assumes")
-    ops = []
-    if thorough:
-        for lo in range(0, 0x110000, 4096):
-            ops.append(f"nws {lo} 4096")
-        note = "narrow then widen of every one-character string U+0000..U+10FFFF (surrogates included: narrow must fail)"
-    else:
-        chosen = set()
-        for e in SCALAR_EDGES + [0xD800, 0xDFFF]:
-            chosen.update(range(max(0, e - 2), min(0x10FFFF, e + 2) + 1))
-        chosen.update(range(0, 0x110000, 17))
-        ops = [f"nw {c:08x}" for c in sorted(chosen)]
-        ops += [f"nws {lo} 4096" for lo in range(0, 0x10000, 4096)]
-        note = "every 17th scalar value, all neighbours of the length/surrogate boundaries, the whole BMP as digests"
-    yield Batch("utf8-scalars", ops, exhaustive=thorough, note=note)
+    ops = [f"nws {lo} 4096" for lo in range(0, 0x110000, 4096)]
+    chosen = set()
+    for e in SCALAR_EDGES + [0xD800, 0xDFFF]:
+        chosen.update(range(max(0, e - 2), min(0x10FFFF, e + 2) + 1))
+    ops += [f"nw {c:08x}" for c in sorted(chosen)] + [f"nwenv {c:08x}" for c in sorted(chosen)]
+    note = ("narrow then widen of EVERY one-character string U+0000..U+10FFFF (1,114,112 code points as 272 digests; surrogates included: "
+            "narrow must fail), the neighbours of every length/surrogate boundary singly, also through the overloads that take the locale from the environment")
+    yield Batch("utf8-scalars", ops, exhaustive=True, note=note)
     r = rng.fork("utf8")
     ops = []
-    for _ in range(6000 if thorough else 1200):
-        ops.append("nw " + whx(rand_string(r)))
+    for _ in range(30000 if thorough else 4000):
+        ops.append(("nwenv " if r.chance(1, 10) else "nw ") + whx(rand_string(r)))
     # every length 1..40 with characters of every encoded length: all buffer growth paths (initial size n, 2*read, max_length)
     for n in range(1, 41):
         for c in (0x41, 0xE4, 0x20AC, 0x1F600):
@@ -475,7 +497,7 @@ def batches(rng, tier):
     yield Batch("utf8-strings", ops, note="random strings of scalar values up to length 40 and, for every length 1..40, strings whose encoded length is n, 2n, 3n, 4n, n+1..n+3")
     # the facet itself: contract of the abstract converter, concrete model of libstdc++/glibc
     ops = []
-    for _ in range(5000 if thorough else 900):
+    for _ in range(40000 if thorough else 4000):
         if r.chance(1, 2):
             cs = rand_string(r, 6) if r.chance(2, 3) else malformed_wide(r)
             total = sum(len(enc31(c) or [0]) for c in cs)
@@ -491,9 +513,9 @@ def batches(rng, tier):
             ops.append(f"cvt in {r.range(0, len(bs) + 1)} {hexs(pend)} {hexs(bs)}")
     yield Batch("utf8-facet-calls", ops, note="single calls of the real codecvt<wchar_t,char,mbstate_t>::in/out of C.utf8 with every window size, primed states, well- and ill-formed input: result kind, from_next, to_next, output, mbsinit")
     ops = []
-    for _ in range(6000 if thorough else 1200):
+    for _ in range(40000 if thorough else 4000):
         ops.append("widen " + hexs(malformed_bytes(r)))
-    for _ in range(2000 if thorough else 400):
+    for _ in range(12000 if thorough else 1200):
         ops.append("narrow " + whx(malformed_wide(r)))
     for e in BAD_WC + WIDE_WC:
         ops.append(f"narrow {e:08x}")
@@ -560,7 +582,7 @@ def extra_checks(binp, rng, tier, ev):
     if binp is None:
         return []
     r = rng.fork("utf8-rule")
-    n = 8000 if tier == "thorough" else 1500
+    n = 40000 if tier == "thorough" else 4000
     ops, want = [], []
     for _ in range(n):
         if r.chance(3, 4):
@@ -615,8 +637,22 @@ def known_finding_lines(findings, ev):
 
 
 MANIFEST = {
-    "level_text": "",
-    "level_note": "",
+    "level_text": ("Machine-checked proofs (Lean 4, 41 theorems) over executable models that mirror the anchored code: reverse_mem's index loop is "
+                   "list reversal for every length; swap∘swap = id, convert round trips, io::write emits the base-256 digits most/least "
+                   "significant first and io::read∘io::write = id for every width, signedness, byte order, machine order and value, a short input "
+                   "never yields a value; extract_from_string(output_to_string(v)) = v for every integer of 1..8 bytes and every accepted text is "
+                   "a complete numeral (never truncates); enum from_string/to_string and stream round trips for every names table with distinct "
+                   "names; vector/dim output/input round trip for every length; the impl::codecvt loop, for ANY converter meeting the stated "
+                   "contract and from every buffer state, terminates and returns the conversion of the complete input or a failure, never a "
+                   "proper prefix; UTF-8 decode∘encode and encode∘decode; widen(narrow(s)) = s for every string of valid characters incl. all "
+                   "Unicode scalar values. Tied to the code by a differential correspondence that is exhaustive over all 8/16-bit integers, all "
+                   "enumerators, all small vectors and all 1,114,112 code points."),
+    "level_note": ("PARTIAL: the UTF-8 conversion itself (glibc/libstdc++ codecvt) and num_get/num_put are library code; they enter as validated "
+                   "assumptions (a stated contract + per-character models checked against the real facet/streams on every run), not as proved "
+                   "code. widen's strong statement excludes the listed known finding (an incomplete sequence directly followed by an embedded "
+                   "NUL: libstdc++ carries the state across the NUL), stated as the hypothesis nulWhilePending = false. Trusted: Lean kernel + "
+                   "propext/Classical.choice/Quot.sound; fidelity of the hand-written models outside the exercised inputs; harness and digest "
+                   "protocol. No sorry/axiom/native_decide."),
     "technique": "Lean 4 proof over hand-written executable model + differential correspondence (ASan/UBSan harness)",
     "design_ref": "DESIGN.md §5 C15",
 }
